@@ -2451,6 +2451,45 @@ fn retained_messages_fit_into_a_nearly_full_window() {
     report(name, "C15", "0/98/99 unacknowledged forwards x 1..2 retained messages that still fit the window of 100, and a completely full window (100) that is freed afterwards", cases, fail);
 }
 
+/// C08: one client holding `t` and `$share/g/t` (two subscriptions reading one log).  Unacknowledged publishes are booked
+/// per filter_idx, which the two share, so on the pinned tree the copy the client DID acknowledge is sent again after
+/// the session resumes: recorded as a KNOWN FINDING, kept as its own obligation.
+// @native props=C08 tier=quick fn=Outgoing::retransmission_map+Router::handle_disconnection (bookkeeping per filter_idx)
+#[test]
+fn plain_and_shared_subscription_on_one_path_resume_without_resending_acknowledged_copies() {
+    let name = "rumqttd::Router::handle_disconnection#plain_and_shared_subscription_share_a_filter_idx";
+    let mut cases = 0u64;
+    let mut fail: Option<String> = None;
+    'outer: for acked in 0..=2usize {
+        cases += 1;
+        let desc = format!("a (clean-session off) holds z and $share/g/z QoS 1; one publish on z -> two copies; a acknowledges {} of them, loses its link, resumes", acked);
+        let mut r = new_router();
+        let p = connect(&mut r, "p", true).unwrap();
+        let a = connect(&mut r, "a", false).unwrap();
+        send(&mut r, &a, vec![subscribe(1, &[("z", 1)])]);
+        send(&mut r, &a, vec![subscribe(2, &[("$share/g/z", 1)])]);
+        let _ = drain(&mut r, &a);
+        send(&mut r, &p, vec![publish("z", 0, 0, "m0", false)]);
+        let first = drain(&mut r, &a);
+        let ids: Vec<u16> = first.iter().filter_map(|n| match n { RNotification::Forward(Forward { publish, .. }) => Some(publish.pkid), _ => None }).collect();
+        if ids.len() != 2 {
+            fail = Some(format!("input=[{}] detail=[{} copies forwarded before the failure, expected one per subscription]", desc, ids.len()));
+            break 'outer;
+        }
+        send(&mut r, &a, ids[..acked].iter().map(|k| puback(*k)).collect());
+        let _ = drain(&mut r, &a);
+        r.events(a.id, Event::Disconnect);
+        settle(&mut r);
+        let a2 = connect(&mut r, "a", false).unwrap();
+        let again = receive_all(&mut r, &a2);
+        if again.len() != 2 - acked {
+            fail = Some(format!("input=[{}] detail=[after the resume {} copies were sent ({:?}), {} were unacknowledged]", desc, again.len(), again, 2 - acked));
+            break 'outer;
+        }
+    }
+    report(name, "C08", "0/1/2 of the two copies acknowledged before the link fails", cases, fail);
+}
+
 /// C08: a saved session survives a refused reconnect (broker full) and exists for a client without subscriptions
 // @native props=C08,C19 tier=quick fn=Router::handle_new_connection+Graveyard::save_state
 #[test]
